@@ -830,6 +830,52 @@ class Executor:
         del self.obligations[nob:]
         return None
 
+    def e_ListComp(self, e, st):
+        """[elt for t1 in it1 for t2 in it2 ...] over sequences of concrete length (no filters): the
+        comprehension is unrolled; comprehension variables live in a scratch frame"""
+        if any(g.ifs or g.is_async for g in e.generators):
+            raise Unsupported("comprehension with a filter")
+        saved = dict(st.env)
+
+        def gen(gi, s2):
+            if gi == len(e.generators):
+                for v, s3 in self.eval(e.elt, s2):
+                    yield ([v] if not isinstance(v, Raised) else v), s3
+                return
+            g = e.generators[gi]
+            for it, s3 in self.eval(g.iter, s2):
+                if isinstance(it, Raised):
+                    yield it, s3
+                    continue
+                seq = self.iter_items(s3, it)
+                if seq is None:
+                    raise Unsupported("comprehension over a sequence of symbolic length")
+                yield from each(gi, g, seq, 0, s3)
+
+        def each(gi, g, seq, k, s2):
+            if k == len(seq):
+                yield [], s2
+                return
+            self.assign(s2, g.target, seq[k])
+            for head, s3 in gen(gi + 1, s2):
+                if isinstance(head, Raised):
+                    yield head, s3
+                    continue
+                for rest, s4 in each(gi, g, seq, k + 1, s3):
+                    if isinstance(rest, Raised):
+                        yield rest, s4
+                    else:
+                        yield head + rest, s4
+        for items, s2 in gen(0, st):
+            # the comprehension's variables do not leak
+            for name in [n for n in s2.env if n not in saved]:
+                del s2.env[name]
+            for name, val in saved.items():
+                if name in s2.env and s2.env[name] is not val and any(
+                        isinstance(t, ast.Name) and t.id == name for g in e.generators for t in ast.walk(g.target)):
+                    s2.env[name] = val
+            yield (items if isinstance(items, Raised) else VList(items, fresh=True)), s2
+
     def e_Constant(self, e, st):
         if e.value is Ellipsis:
             yield VConst(Ellipsis), st
